@@ -33,10 +33,15 @@ def op_gen_cli(c):
     returns exit status, stderr tail, the files created (relative path, size)"""
     d = _scratch()
     try:
+        if c.get("bare"):
+            # an empty working directory: a refused run must leave it empty (nothing is written, no folder is made)
+            shutil.rmtree(os.path.join(d, "inputs")); shutil.rmtree(os.path.join(d, "outputs"))
         env = dict(os.environ, PYTHONPATH=REPO, PYTHONHASHSEED="0", PYTHONDONTWRITEBYTECODE="1")
         p = subprocess.run([sys.executable, os.path.join(REPO, "roberta_generator.py")] + list(c["argv"]),
                            cwd=d, env=env, stdout=subprocess.PIPE, stderr=subprocess.PIPE, text=True)
         files, extra = _listing(d)
+        if c.get("bare"):
+            extra = sorted(os.listdir(d))
         res = {"rc": p.returncode, "stderr": p.stderr[-600:], "files": files, "extra": extra}
         if c.get("want_text") and len(files) == 1:
             res["text"] = open(os.path.join(d, files[0][0])).read()
@@ -53,6 +58,10 @@ def op_gen_main_seq(c):
     cwd, old_argv = os.getcwd(), sys.argv
     os.chdir(d)
     out, seen = [], set()
+    import logging
+    old_level = logging.getLogger().level
+    if c.get("debug"):
+        logging.getLogger().setLevel(logging.DEBUG)       # what conditionalrewards.set_logger("d") leaves behind in a process
     try:
         for argv in c["argvs"]:
             sys.argv = ["roberta_generator.py"] + list(argv)
@@ -68,6 +77,7 @@ def op_gen_main_seq(c):
             seen |= set(f[0] for f in files)
         return {"seq": out}
     finally:
+        logging.getLogger().setLevel(old_level)
         sys.argv = old_argv
         os.chdir(cwd)
         shutil.rmtree(d, ignore_errors=True)
